@@ -461,3 +461,65 @@ func BigPayloadStream(seed int64) []byte {
 	lists = append(lists, a, b)
 	return BuildStream("big", lists, roundRobin(lists), nil).Bytes
 }
+
+// RetainedSlicesStreams returns streams whose units make the parsers return every kind of
+// retained byte slice (PES extension private data, extension-2 data, adaptation-field
+// private data, descriptor names/texts/items of every family): used by C16's immutability
+// monitor - an alias of a reused or pooled buffer in any of them shows as a later mutation.
+func RetainedSlicesStreams(seed int64) (pesFull, zoo []byte) {
+	// PES with full optional headers
+	{
+		cc := []uint8{3, 11}
+		var a, b []*ref.Pkt
+		for i := 0; i < 3; i++ {
+			pts, dts := uint64(1000+i), uint64(900+i)
+			rate, ci := uint32(0x12345+i), uint8(0x21+i)
+			h := &ref.PESHdr{StreamID: 0xe0, PTS: &pts, DTS: &dts, ESCR: &ref.PCR{Base: uint64(77 + i), Ext: 5}, ESRate: &rate, CopyInfo: &ci,
+				Ext: &ref.PESExt{Private: fillBytes(16, byte(0x40+i)), Seq: &ref.PESSeq{Counter: uint8(i), MPEG1or2: 1, OrigStuff: 3}, PSTD: &ref.PSTD{Scale: 1, Size: 100}, HasExt2: true, Ext2: fillBytes(5+i, byte(0x70+i))}}
+			u := SUnit{PID: 0x130, Bytes: h.Encode(pesPayload(80+i, 150+i*90, seed), ref.LenZero)}
+			u.AF = &ref.AF{RAI: i == 0, HasPrivate: true, Private: fillBytes(4+i, byte(0x90+i))}
+			a = append(a, Packetize(u, nil, &cc[0], false)...)
+			h2 := &ref.PESHdr{StreamID: 0xbd, PTS: &pts, Ext: &ref.PESExt{Private: fillBytes(16, byte(0xa0+i))}}
+			b = append(b, Packetize(SUnit{PID: 0x131, Bytes: h2.Encode(pesPayload(90+i, 60, seed), ref.LenExact)}, nil, &cc[1], false)...)
+		}
+		lists := [][]*ref.Pkt{a, b}
+		pesFull = BuildStream("pes-full", lists, roundRobin(lists), nil).Bytes
+	}
+	// tables carrying one descriptor of every family
+	{
+		var all []*astits.Descriptor
+		for _, g := range descGens {
+			ds := g.Gen(false)
+			d := *ds[len(ds)/2]
+			if len(ref.DescBody(&d)) > 120 {
+				d = *ds[1]
+			}
+			all = append(all, &d)
+		}
+		all = fixLens(all)
+		eit := &astits.EITData{ServiceID: 1, TransportStreamID: 2, OriginalNetworkID: 3, LastTableID: 0x4e}
+		for i := 0; i < len(all); i += 4 {
+			j := i + 4
+			if j > len(all) {
+				j = len(all)
+			}
+			eit.Events = append(eit.Events, &astits.EITDataEvent{EventID: uint16(i), StartTime: time.Date(2022, 5, 6, 7, 8, 9, 0, time.UTC), Duration: time.Hour, RunningStatus: 4, Descriptors: all[i:j]})
+		}
+		sec := SecEIT(eit, ref.SecHdr{CNI: true})
+		if len(sec) > 4096 {
+			panic("descriptor zoo exceeds the EIT section limit")
+		}
+		nit := modelNIT(2)
+		sdt := modelSDT(4)
+		tot := modelTOT()
+		cc := []uint8{0, 5, 9, 13}
+		lists := [][]*ref.Pkt{
+			append(Packetize(PSIUnit(0x12, 0, [][]byte{sec}, nil), nil, &cc[0], true), Packetize(PSIUnit(0x12, 0, [][]byte{SecEIT(modelEIT(2), ref.SecHdr{CNI: true})}, nil), nil, &cc[0], true)...),
+			Packetize(PSIUnit(0x10, 0, [][]byte{SecNIT(nit, ref.SecHdr{CNI: true})}, nil), nil, &cc[1], true),
+			Packetize(PSIUnit(0x11, 0, [][]byte{SecSDT(sdt, ref.SecHdr{CNI: true})}, nil), nil, &cc[2], true),
+			Packetize(PSIUnit(0x14, 0, [][]byte{SecTOT(tot)}, nil), nil, &cc[3], true),
+		}
+		zoo = BuildStream("descriptor-zoo", lists, roundRobin(lists), nil).Bytes
+	}
+	return
+}
